@@ -309,7 +309,7 @@ def gather(tier: str) -> dict:
     cache = tlc.workdir() / "hooktraces" / f"{tier}_{key}.json"
     if cache.exists():
         return json.loads(cache.read_text())
-    d = tlc.fresh_dir(f"hookrec_{tier}")
+    d = tlc.fresh_dir(f"hookrec_{tier}_{os.getpid()}")      # several checks may record at the same time
     info = record_tests(QUICK_TESTS if tier == "quick" else THOROUGH_TESTS, d / "tests.ndjson")
     examples = record_examples(d, tier == "thorough")
     events = read_events(sorted(str(f) for f in d.glob("*.ndjson")))
@@ -321,8 +321,13 @@ def gather(tier: str) -> dict:
                                       "tests": info, "examples": examples, **stats}}
     cache.parent.mkdir(parents=True, exist_ok=True)
     for old in cache.parent.glob(f"{tier}_*.json"):
-        old.unlink()
-    cache.write_text(json.dumps(out))
+        try:
+            old.unlink()
+        except OSError:
+            pass
+    tmp = cache.with_suffix(f".{os.getpid()}.tmp")
+    tmp.write_text(json.dumps(out))
+    os.replace(tmp, cache)
     import shutil
     shutil.rmtree(d, ignore_errors=True)
     return out
